@@ -58,7 +58,10 @@ def mkseq(g, sid, SR, chans, P, spec, subs):
 def bp_case(g):
     r = g.r
     SR = r.choice([10, 100, 1e3, 2.5])
-    o1, i1 = g.blueprint("p", SR=SR, nseg=(1, 4), kinds=("ramp", "sine", "user"), waits=0.2, aligned=True, markers=True)
+    if r.random() < 0.5:
+        o1, i1 = g.blueprint("p", SR=SR, nseg=(1, 4), kinds=("ramp", "sine", "user"), waits=0.2, aligned=True, markers=True)
+    else:   # durations off the sample grid (|f| <= 0.4): segment starts must come from the rounded counts
+        o1, i1 = g.blueprint("p", SR=SR, nseg=(2, 5), kinds=("ramp", "sine", "user"), waits=0.0, aligned=False, markers=True, nmax=12)
     o2, i2 = g.blueprint("r", SR=SR, nseg=(1, 4), kinds=("ramp", "sine", "user"), waits=0.0, aligned=True, markers=False)
     n1 = [n for n, _ in seg_table(o1)]
     n2 = [n for n, _ in seg_table(o2)]
